@@ -469,3 +469,25 @@ Example C19_nonvacuous_invalid :
   validate_stDiGraph (set_starts ex_graph false []) = RaiseValueError /\
   validate_MinErrorFlow (set_flags ex_graph false true true [true; false]) = RaiseValueError.
 Proof. vm_compute. repeat split; reflexivity. Qed.
+
+(* audit (stranger's reading, 2026-10-02): the hypotheses of the three theorem shapes are jointly satisfiable for one class of each kind --
+   DAG k-search model (MinFlowDecomp: has_live, search_enters, deviates), cyclic k-model (kFlowDecompCycles), graph class (stDiGraph),
+   MinErrorFlow -- on a valid and on an invalid input each *)
+Example C19_sampled_hypotheses_satisfiable :
+  in_domain_MinFlowDecomp ex_dag = true /\ has_live ex_dag = true /\ search_enters ex_dag = true /\ deviates_MinFlowDecomp ex_dag = false /\
+  (let neg := set_elems ex_dag [neg_elem] true in
+   in_domain_MinFlowDecomp neg = false /\ deviates_MinFlowDecomp neg = false /\ validate_MinFlowDecomp neg = RaiseValueError) /\
+  in_domain_kFlowDecompCycles ex_graph = true /\ has_live ex_graph = true /\
+  (let neg := set_elems ex_graph [neg_elem] true in
+   in_domain_kFlowDecompCycles neg = false /\ deviates_kFlowDecompCycles neg = false /\ validate_kFlowDecompCycles neg = RaiseValueError) /\
+  in_domain_stDiGraph ex_graph = true /\ in_domain_stDiGraph (set_starts ex_graph false []) = false /\
+  in_domain_MinErrorFlow ex_graph = true /\ validate_MinErrorFlow ex_graph = Accept /\
+  in_domain_MinErrorFlow (set_flags ex_graph false true true [true; false]) = false.
+Proof. vm_compute. repeat split; reflexivity. Qed.
+(* degenerate input made explicit: no weighted element at all -- documented domain, but outside [has_live], the premise of
+   C19_accepts_domain_kFlowDecomp; the validator does NOT answer Accept there, it records the crash of the code (max() over nothing),
+   and [deviates] names it, so C19_validate_complete_kFlowDecomp is silent about it as well *)
+Example C19_no_live_element_is_outside_the_accept_theorem :
+  let e := set_elems ex_dag [] true in
+  in_domain_kFlowDecomp e = true /\ has_live e = false /\ validate_kFlowDecomp e = RaiseOther ESolverAPI /\ deviates_kFlowDecomp e = true.
+Proof. vm_compute. repeat split; reflexivity. Qed.
